@@ -1267,7 +1267,8 @@ func (app *App) performSwitchover(clusterState map[string]*nodestate.NodeState, 
 	// set read only everywhere (all HA-nodes) and stop replication
 	app.logger.Info().Msg("switchover: phase 1: enter read only")
 	errs := util.RunParallel(func(host string) error {
-		if !clusterState[host].PingOk {
+		// an active node that is not a registered host anymore counts as unreachable
+		if state := clusterState[host]; state == nil || !state.PingOk {
 			return fmt.Errorf("switchover: failed to ping host %s", host)
 		}
 		node := app.cluster.Get(host)
@@ -1322,7 +1323,7 @@ func (app *App) performSwitchover(clusterState map[string]*nodestate.NodeState, 
 	}
 
 	errs2 := util.RunParallel(func(host string) error {
-		if !clusterState[host].PingOk {
+		if state := clusterState[host]; state == nil || !state.PingOk {
 			errMessage := fmt.Sprintf("switchover: failed to ping host %s", host)
 			app.logger.Warn().Msg(errMessage)
 			return fmt.Errorf("%s", errMessage)
@@ -1402,6 +1403,9 @@ func (app *App) performSwitchover(clusterState map[string]*nodestate.NodeState, 
 	app.logger.Info().Msgf("switchover: newMaster is %s", newMaster)
 
 	newMasterNode := app.cluster.Get(newMaster)
+	if newMasterNode == nil {
+		return fmt.Errorf("switchover: new master %s is not a registered cluster host", newMaster)
+	}
 
 	// catch up
 	app.logger.Info().Msg("switchover: phase 4: catch up if needed")
@@ -1448,7 +1452,7 @@ func (app *App) performSwitchover(clusterState map[string]*nodestate.NodeState, 
 		return fmt.Errorf("got error on setting new master %s online %w", newMaster, err)
 	}
 	errs = util.RunParallel(func(host string) error {
-		if host == newMaster || !clusterState[host].PingOk {
+		if state := clusterState[host]; host == newMaster || state == nil || !state.PingOk {
 			return nil
 		}
 		err := app.performChangeMaster(host, newMaster)
@@ -2334,7 +2338,12 @@ func (app *App) stopActiveNodeOptimization(oldMaster string, activeNodes []strin
 
 	var nodes []*mysql.Node
 	for _, hostname := range activeNodes {
-		nodes = append(nodes, app.cluster.Get(hostname))
+		node := app.cluster.Get(hostname)
+		if node == nil {
+			app.logger.Warn().Msgf("active node %s is not a registered cluster host, skipping", hostname)
+			continue
+		}
+		nodes = append(nodes, node)
 	}
 
 	return app.optController.DisableAll(
